@@ -1,5 +1,5 @@
 (* C14: FilterPMTPacketsToPids = packetisation of the serialised section of the kept streams. *)
-From Gots Require Import Base.Prelude Model.Psi Model.Pmt Spec.PmtSpec Proofs.PmtBase Proofs.PmtParse Proofs.PmtTables Proofs.PmtRead.
+From Gots Require Import Base.Prelude Model.Psi Model.Pmt Spec.PmtSpec Proofs.PmtBase Proofs.PmtParse Proofs.PmtTables Proofs.PmtRead Proofs.PmtMisc.
 Import Pmt.
 Local Open Scope N_scope.
 
@@ -368,3 +368,28 @@ Proof. intros W. eexists. split; [apply parse_tables_ok; exact W|]. split; [refl
   unfold pid_exists. cbn [pids sec_result]. rewrite existsb_exists. split.
   - intros (y & Hy & E). apply N.eqb_eq in E. subst. exact Hy.
   - intros H. exists x. split; [exact H|apply N.eqb_refl]. Qed.
+
+(* ---------- non-vacuity: the three-stream example section of C06 without the preceding section, in two packets;
+   requested: one present PID, one absent PID, the PAT PID ---------- *)
+Definition exf_carrier : carrier := {| pf := 1; pre := []; sec := ex_sec; stuffing := 2 |}.
+Definition exf_payload : bytes := ser_payload exf_carrier.
+Definition exf_items : list item :=
+  [ Mine k1_misc (ex_af 153) (takeN 30 exf_payload);
+    Mine k1_misc (ex_af (183 - (len exf_payload - 30))) (dropN 30 exf_payload) ].
+
+Lemma exf_wf : wf_carrier exf_carrier.
+Proof. destruct ex_wf as (_ & _ & W). split; [cbn; lia|]. split; [constructor|exact W]. Qed.
+Lemma exf_items_wf : Forall (wf_item 481) exf_items.
+Proof. unfold exf_items.
+  apply Forall_cons; [apply ex_mine; [lia|vm_compute; reflexivity|vm_compute; reflexivity]|].
+  apply Forall_cons; [apply ex_mine; [vm_compute; discriminate|vm_compute; reflexivity|vm_compute; reflexivity]|].
+  constructor. Qed.
+Example filter_nonvacuous :
+  wf_carrier exf_carrier /\ pre exf_carrier = [] /\ all_mine exf_items /\ Forall (wf_item 481) exf_items /\
+  concat (chunks exf_items) = ser_payload exf_carrier /\
+  missing_of (map epid (sstreams (sec exf_carrier))) 481 [258; 9; 0] = [9] /\
+  map epid (sstreams (filtered_sec (sec exf_carrier) [258; 9; 0])) = [258] /\
+  exists out, filter_pmt_packets (ser_items 481 true exf_items) [258; 9; 0] = Ok (Some out, Some [9]) /\ length out = 2%nat.
+Proof. split; [exact exf_wf|]. split; [reflexivity|]. split; [repeat constructor|]. split; [exact exf_items_wf|].
+  split; [vm_compute; reflexivity|]. split; [vm_compute; reflexivity|]. split; [vm_compute; reflexivity|].
+  eexists. split; [vm_compute; reflexivity|reflexivity]. Qed.
